@@ -122,19 +122,30 @@ def sim_table(repo, r=None):
     bm = repo.mod(BITS)
     meths = bm.methods('Bits')
     t = {}
-    for dunder, (opcls, _cmp) in BITS_DUNDERS.items():
+    t['_mixed'] = {}
+    for dunder, (opcls, is_cmp) in BITS_DUNDERS.items():
         f = meths.get(dunder)
         if f is None:
             t[opcls.__name__] = None
             continue
-        terms = set()
+        per = []
         for c in walk_no_nested(f):
             if isinstance(c, ast.Call) and norm(c.func) == '_new_valid_bits' and c.args:
-                terms.add(width_term(c.args[0], c, f))
+                from sa.astutil import enclosing
+                h = enclosing(c, (ast.ExceptHandler,))
+                branch = ('int-operand branch' if h is not None and h.type is not None and 'AttributeError' in norm(h.type)
+                          else 'non-numeric-operand branch' if h is not None else 'Bits-operand branch')
+                per.append((width_term(c.args[0], c, f), branch, norm(c), c.lineno))
+        terms = {x[0] for x in per}
+        want = '1' if is_cmp else 'N'
         if terms == {'N'}:
             t[opcls.__name__] = 'N'
         elif terms == {'1'}:
             t[opcls.__name__] = '1'
+        elif terms <= {'N', '1'} and want in terms:
+            # the returns of one operator disagree: report the deviating branch, keep the documented width for the table
+            t[opcls.__name__] = want
+            t['_mixed'][opcls.__name__] = (dunder, want, [x for x in per if x[0] != want])
         else:
             raise AnalysisError(f"Bits.{dunder}: result width terms {terms} outside the table domain")
     f = meths.get('__getitem__')
@@ -596,7 +607,7 @@ def rule_optable(repo):
             r.bad(m, 'visit_UnaryOp', cons, f"`{PY_TOKEN[k]}5` folds to {v if exc is None else 'exception ' + exc}, python gives "
                   f"{PY_UN[k](5)}")
     r.evaluations = w.evals
-    r.require_floor(24)
+    r.require_floor(27)
     return r
 
 
@@ -748,7 +759,7 @@ def rule_handlers(repo):
     except Raised as e:
         r.bad(w.ck_mod, enf.cls.name, "enforce IfExp (both arms and the node)", f"the enforcer raises {e.what}")
     r.evaluations = w.evals
-    r.require_floor(31)
+    r.require_floor(35)
     return r
 
 
@@ -957,15 +968,43 @@ def _bool_struct_points(repo):
             exc = 'literal-not-resized'
         out.append((f"_visit_Assign_single_target (struct): 8-bit struct on the LHS, literal {oname} the struct on the RHS (re-sized to the struct width)",
                     '_visit_Assign_single_target', f"`s.out_struct8 @= <{wv}-bit literal>`", False, [('Assign', exc)]))
-    for same in (True, False):
+    def struct2(cls, wa, wb):
+        return w.new(w.rdt, 'Struct', cls, {'a': w.vec(wa), 'b': w.vec(wb)})
+    for txt, rhs, same in (('the same struct type', struct2(cls_a, 3, 5), True),
+                           ('another struct class with the same fields', struct2(cls_b, 3, 5), False),
+                           ('a struct class of the same NAME whose fields have other widths (same total)', struct2(cls_a, 4, 4), False),
+                           ('a struct class of the same NAME with a wider field', struct2(cls_a, 3, 6), False)):
         tgt = w.new(w.bir, 'Attribute', Opaque('base'), 'out')
         val = w.new(w.bir, 'Attribute', Opaque('base'), 'in_')
-        tgt.attrs.update(Type=w.new(w.rt, 'Port', 'output', struct(cls_a, False)), _is_explicit=True)
-        val.attrs.update(Type=w.new(w.rt, 'Wire', struct(cls_a if same else cls_b, False)), _is_explicit=True)
+        tgt.attrs.update(Type=w.new(w.rt, 'Port', 'output', struct2(cls_a, 3, 5)), _is_explicit=True)
+        val.attrs.update(Type=w.new(w.rt, 'Wire', rhs), _is_explicit=True)
         node = w.new(w.bir, 'Assign', [tgt], val, True)
-        out.append((f"_visit_Assign_single_target (struct): {'the same' if same else 'two different'} struct type(s) on both sides",
-                    '_visit_Assign_single_target', "`s.out_structA @= s.in_struct" + ('A`' if same else 'B`'), not same,
+        out.append((f"_visit_Assign_single_target (struct): LHS struct A(a:3, b:5), RHS {txt}",
+                    '_visit_Assign_single_target', f"`s.out_structA @= <{txt}>`", not same,
                     [('Assign', w.run(w.checker(), '_visit_Assign_single_target', node, tgt, 0))]))
+    # several targets: every target is checked / recorded
+    def port(wd, sym):
+        t_ = w.new(w.bir, 'Attribute', Opaque('base'), 'out' + sym)
+        t_.attrs.update(Type=w.new(w.rt, 'Port', 'output', w.vec(SymInt(wd, sym=sym))), _is_explicit=True)
+        return t_
+    for txt, widths, must in (('both targets as wide as the RHS', (8, 8), False), ('second target narrower than the RHS', (8, 4), True),
+                              ('first target narrower than the RHS', (4, 8), True), ('third target wider than the RHS', (8, 8, 12), True)):
+        tg = [port(wd, f't{i}') for i, wd in enumerate(widths)]
+        node = w.new(w.bir, 'Assign', tg, w.operand('E', SymInt(8, sym='wr')), True)
+        out.append((f"visit_Assign with several targets: {txt}", 'visit_Assign',
+                    '`' + ' = '.join(f's.out{wd}' for wd in widths) + ' = s.in8`', must, [('Assign', w.run(w.checker(), 'visit_Assign', node))]))
+    ck = w.checker()
+    tg = [w.new(w.bir, 'TmpVar', nm, 'blk') for nm in ('t', 'u')]
+    for t_ in tg:
+        t_.attrs.update(Type=w.new(w.rt, 'NoneType'), _is_explicit=True)
+    exc = w.run(ck, 'visit_Assign', w.new(w.bir, 'Assign', tg, w.operand('E', SymInt(8, sym='wr')), True))
+    if exc is None:
+        rec = ck.attrs.get('tmpvars', {})
+        missing = [nm for nm in ('t', 'u') if (nm, 'blk') not in rec or w.width(rec[(nm, 'blk')]).form != {'wr': 1}]
+        if missing:
+            exc = f"temporary {missing[0]} not recorded with the width of the RHS"
+    out.append(("visit_Assign with several targets: two temporaries, both recorded with the RHS type", 'visit_Assign', "`t = u = s.in8`",
+                False, [('Assign', exc)]))
     return out
 
 
@@ -1025,6 +1064,29 @@ def _tmpvar_struct_points(repo):
                             "`if c: u = s.in8 else: u = 200; s.out16 @= u` is accepted and zero-extended, simulation raises a width mismatch"
                             if (e1x or e2x) else "a temporary that only ever held literals became explicitly sized")
             out.append((cons, '_visit_Assign_single_target', ex, prob))
+    # temporaries holding structs: "same type" is the struct name that encodes fields and widths, not the class name
+    cls_a = w.I.get_class(BIR, 'Base')
+    for txt, wa, wb, accept in (('the same struct type', 3, 5, True), ('a struct of the same class NAME with other field widths', 4, 4, False)):
+        ck = w.checker()
+
+        def sval(a_, b_):
+            v = w.new(w.bir, 'Attribute', Opaque('base'), 'in_')
+            v.attrs.update(Type=w.new(w.rt, 'Wire', w.new(w.rdt, 'Struct', cls_a, {'a': w.vec(a_), 'b': w.vec(b_)})), _is_explicit=True)
+            return v
+        excs = []
+        for v in (sval(3, 5), sval(wa, wb)):
+            tgt = w.new(w.bir, 'TmpVar', 'u', 'blk')
+            e = w.run(ck, 'visit_TmpVar', tgt)
+            excs.append(e or w.run(ck, '_visit_Assign_single_target', w.new(w.bir, 'Assign', [tgt], v, True), tgt, 0))
+        prob = None
+        if excs[0] is not None:
+            prob = f"the first assignment ends with {excs[0]}"
+        elif accept and excs[1] is not None:
+            prob = f"re-assigning a value of the same struct type is {'rejected' if excs[1] == 'PyMTLTypeError' else 'ending with ' + excs[1]}"
+        elif not accept and excs[1] != 'PyMTLTypeError':
+            prob = (f"{'ACCEPTED' if excs[1] is None else 'ending with ' + excs[1]}: two struct types are told apart by class name only, the "
+                    f"temporary silently changes its field layout")
+        out.append((f"temporary assigned struct A(a:3, b:5), then {txt}", '_visit_Assign_single_target', "`u = s.in_A; u = s.in_A2`", prob))
     # struct instantiation: field a has 8 bits, field b 4 bits
     arg_kinds = (('explicit 8-bit value', 'E', 8, True), ('explicit 4-bit value', 'E', 4, False), ('explicit 12-bit value', 'E', 12, False),
                  ('8-bit literal', 'I', 200, True), ('3-bit literal', 'I', 5, True), ('9-bit literal', 'I', 300, False),
@@ -1119,7 +1181,7 @@ def rule_mismatch(repo):
     if not any(_unify_verdict(pw, p['exc'], p['le'], p['re'], p['wl'], p['wr'], p['l'], p['r'])[1] for p in ppts):
         raise AnalysisError("R-C10-mismatch: the embedded checker without width tests is not flagged")
     r.evaluations = w.evals + len(ppts)
-    r.require_floor(80)
+    r.require_floor(100)
     return r
 
 
@@ -1133,6 +1195,12 @@ def rule_widthtable(repo):
     _gm, _gf, opmap = gen_opmap(repo)
     pts = _run_pair_points(repo)
 
+    for opname, (dunder, want, devs) in sorted(sim['_mixed'].items()):
+        for term, branch, call, line in devs:
+            r.bad(repo.mod(BITS), f"Bits.{dunder}", f"Bits.{dunder} {branch}: result width",
+                  f"`return {call}` in the {branch} yields a value of width {'1' if term == '1' else 'nbits'} while the other returns of "
+                  f"{dunder} (and the type checker, for ast.{opname}) give {'1 bit' if want == '1' else 'the operand width'}: the static "
+                  f"width of `a {'>=' if opname == 'GtE' else opname} <int>` differs from the simulated one", line)
     # -- operators, comparisons, if-expressions ----------------------------------------------------
     groups = {}
     for p in pts:
@@ -1406,7 +1474,7 @@ def rule_widthtable(repo):
         else:
             r.ok(wm, wq, cons)
     # arrays (lists of ports / constants): the element type, constant index must lie in 0 .. size-1
-    for what in ('port list', 'constant list'):
+    for what in ('port list', 'constant list', 'constant list of BitsN'):
         for region in ('in range', 'negative', 'beyond the last element'):
             probs, cnt = [], 0
             for n in SIZES:
@@ -1419,9 +1487,12 @@ def rule_widthtable(repo):
                     if what == 'port list':
                         sub = w.new(w.rt, 'Port', 'input', w.vec(S(5, 'we')))
                         arrT = w.new(w.rt, 'Array', [n], sub)
-                    else:
+                    elif what == 'constant list':
                         sub = w.new(w.rt, 'Const', w.vec(S(5, 'we'), False), None)
                         arrT = w.new(w.rt, 'Array', [n], sub, [S(10 + i, f'e{i}') for i in range(n)])
+                    else:
+                        sub = w.new(w.rt, 'Const', w.vec(S(5, 'we')), None)
+                        arrT = w.new(w.rt, 'Array', [n], sub, [w.bits_obj(S(5, 'we'), S(10 + i, f'e{i}')) for i in range(n)])
                     arr = w.new(w.bir, 'Attribute', Opaque('base'), 'tap')
                     arr.attrs.update(Type=arrT, _is_explicit=True)
                     node = w.new(w.bir, 'Index', arr, const_index(ck, k))
@@ -1432,8 +1503,12 @@ def rule_widthtable(repo):
                             probs.append(f"{ex} is {'rejected' if exc == 'PyMTLTypeError' else 'ending with ' + exc}")
                         elif not isinstance(node.attrs.get('Type'), AInst) or w.nwidth(node).form != {'we': 1}:
                             probs.append(f"{ex} is not typed like the list element")
-                        elif what == 'constant list' and form_of(node.attrs.get('_value', 0)) != {f'e{k}': 1}:
+                        elif what != 'port list' and form_of(node.attrs.get('_value', 0)) != {f'e{k}': 1}:
                             probs.append(f"{ex} does not fold to element {k} of the list")
+                        elif what != 'port list' and node.attrs.get('_is_explicit') is not (what == 'constant list of BitsN'):
+                            probs.append(f"{ex} is marked {'explicitly sized' if node.attrs.get('_is_explicit') else 're-sizable'}: whether an "
+                                         f"element may be re-sized is decided by its python type (int: yes, BitsN: no) -- "
+                                         f"`s.o16 @= s.lut[0+0]` with a Bits8 element is accepted and zero-extended, simulation raises")
                     elif exc != 'PyMTLTypeError':
                         probs.append(f"{ex} ({reg}) is {'accepted' if exc is None else 'ending with ' + exc}; python wraps a negative index / "
                                      f"raises IndexError, hardware reads an out-of-range element")
@@ -1538,7 +1613,7 @@ def rule_widthtable(repo):
         else:
             r.ok(wm, wq, cons)
     r.evaluations = w.evals
-    r.require_floor(88)
+    r.require_floor(97)
     return r
 
 
@@ -1733,7 +1808,7 @@ def rule_ir_eq(repo):
             r.ok(bm, f"{name}.__eq__", cons)
     w.sync()
     r.evaluations = w.evals
-    r.require_floor(22)
+    r.require_floor(25)
     return r
 
 
@@ -1903,7 +1978,13 @@ def rule_dtype(repo):
             props[extra] = w.new(w.rt, 'Wire', w.vec(3))
         c.attrs.update(name='Lane', params=[], properties=props, unpacked=False, obj=None)
         return c
-    ccases = (('[Lane(8), Lane(8)]', lambda: [comp(8), comp(8)], True),
+    sa_cls = w.I.get_class(BIR, 'Base')
+
+    def sport(wa, wb):
+        return w.new(w.rt, 'Port', 'input', w.new(w.rdt, 'Struct', sa_cls, {'a': w.vec(wa), 'b': w.vec(wb)}))
+    ccases = (('[InPort(A(a:3,b:5)), InPort(A(a:3,b:5))]', lambda: [sport(3, 5), sport(3, 5)], True),
+              ('[InPort(A(a:3,b:5)), InPort(A(a:4,b:4))] (same class name, other field widths)', lambda: [sport(3, 5), sport(4, 4)], False),
+              ('[Lane(8), Lane(8)]', lambda: [comp(8), comp(8)], True),
               ('[Lane(8), Lane(8) with another internal wire]', lambda: [comp(8), comp(8, extra='tmp')], True),
               ('[Lane(8), Lane(4), Lane(8)]', lambda: [comp(8), comp(4), comp(8)], False),
               ('[Lane(4), Lane(8)]', lambda: [comp(4), comp(8)], False),
@@ -1924,14 +2005,15 @@ def rule_dtype(repo):
         if same and exc is not None:
             r2.bad(gm, 'RTLIRGetter._handle_Array', cons, f"a list of components with identical ports is rejected ({exc})")
         elif not same and exc is None:
-            r2.bad(gm, 'Component._has_same_interface', cons, "a list of components whose ports differ (in width / name) is typed by its "
-                   "first element: `s.lanes[1].out` gets the port width of lanes[0], the simulator's value has another width")
+            r2.bad(gm, 'Component._has_same_interface' if 'Lane' in txt else 'RTLIRGetter._handle_Array', cons,
+                   "a list whose elements differ (port width / port name / struct field widths) is typed by its "
+                   "first element: `s.lanes[1].out` gets the width of element 0, the simulator's value has another width")
         elif not same and exc not in ('AssertionError', 'RTLIRConversionError'):
             r2.bad(gm, 'RTLIRGetter._handle_Array', cons, f"ends with {exc}")
         else:
             r2.ok(gm, 'RTLIRGetter._handle_Array' if same else 'Component._has_same_interface', cons)
     r2.evaluations = w.evals
-    r2.require_floor(25)
+    r2.require_floor(29)
 
     r3 = RuleResult('R-C10-nextdim', "indexing a packed-array signal peels exactly one dimension, for Port / Wire / NetWire / Const alike: "
                                      "after k indices the remaining dims, after all indices the element")
@@ -1987,7 +2069,7 @@ def rule_dtype(repo):
             r3.ok(wm, wq, cons)
     w.sync()
     r3.evaluations = w.evals
-    r3.require_floor(13)
+    r3.require_floor(14)
     return [r, r2, r3]
 
 
@@ -2068,7 +2150,42 @@ def rule_blockstate(repo):
     return r
 
 
-RULES = [rule_intlog, rule_litwidth, rule_idxwidth, rule_optable, rule_handlers, rule_mismatch, rule_widthtable, rule_cache, rule_ir_eq, rule_slice_step, rule_dtype, rule_blockstate,
+# ---------------------------------------------------------------------------
+def rule_constfold(repo):
+    r = RuleResult('R-C10-constfold', "the generator folds a constant subscript `value[idx]` whenever both parts are constants -- also "
+                                      "for index 0 / key '' (test `is not None`, not truthiness); the version siblings agree")
+    from sa.astutil import guards_of
+    m = repo.mod(GEN[0])
+    meths = m.methods('ConstantExtractor')
+    n = 0
+    for name, f in sorted(meths.items()):
+        for st in walk_no_nested(f):
+            if not (isinstance(st, ast.Assign) and isinstance(st.value, ast.Subscript) and isinstance(st.value.value, ast.Name)
+                    and isinstance(st.value.slice, ast.Name)):
+                continue
+            vn, xn = st.value.value.id, st.value.slice.id
+            gs = [g for g in guards_of(st) if g.kind == 'if' and {vn, xn} & {x.id for x in ast.walk(g.test) if isinstance(x, ast.Name)}]
+            n += 1
+            cons = f"{name}: {norm(st)} under {' and '.join(('' if g.polarity else 'not ') + '(' + norm(g.test) + ')' for g in gs) or 'no guard'}"
+            wrong = []
+            for v in (None, [5, 6], (7,), {'': 1, 0: 2}, 'ab'):
+                for i in (None, 0, 1, '', False):
+                    r.evaluations += 1
+                    taken = all(bool(Evaluator({vn: v, xn: i}).ev(g.test)) == g.polarity for g in gs)
+                    if taken != (v is not None and i is not None):
+                        wrong.append((v, i, taken))
+            if wrong:
+                v, i, taken = wrong[0]
+                r.bad(m, f"ConstantExtractor.{name}", cons, f"for value {v!r} and index {i!r} the subscript is "
+                      f"{'evaluated' if taken else 'NOT folded'} ({len(wrong)} of 25 combinations wrong): `s.lut[0]` is not turned into "
+                      f"the explicitly sized constant BitsN(...) but left to the checker's array-index path", st.lineno)
+            else:
+                r.ok(m, f"ConstantExtractor.{name}", cons)
+    r.require_floor(2)
+    return r
+
+
+RULES = [rule_intlog, rule_litwidth, rule_idxwidth, rule_optable, rule_handlers, rule_mismatch, rule_widthtable, rule_cache, rule_ir_eq, rule_slice_step, rule_dtype, rule_blockstate, rule_constfold,
          rule_constcache_dep, rule_sim_accepts,
          rule_sim_helpers]
 
@@ -2179,6 +2296,18 @@ MUTANTS = [
     _m('wire-next-dim-jumps-to-element', RT, "    return Wire( s.dtype.get_next_dim_type(), s.unpacked )", "    return Wire( s.dtype.get_sub_dtype(), s.unpacked )", 'R-C10-nextdim'),
     _m('port-next-dim-keeps-array', RT, "    return Port( s.direction, s.dtype.get_next_dim_type(), s.unpacked )", "    return Port( s.direction, s.dtype, s.unpacked )", 'R-C10-nextdim'),
     _m('packed-array-next-dim-drops-last', RDT, "    return PackedArray( s.dim_sizes[1:], s.sub_dtype )", "    return PackedArray( s.dim_sizes[:-1], s.sub_dtype )", 'R-C10-nextdim'),
+    # seventh round
+    _m('defect-h-constant-list-element-always-resizable', TC1, "          node._is_explicit = not isinstance( obj[ int( idx ) ], int )\n", "          node._is_explicit = False if isinstance(node._value, int) else True\n", 'R-C10-widthtable'),
+    _m('constant-list-element-always-explicit', TC1, "          node._is_explicit = not isinstance( obj[ int( idx ) ], int )\n", "          node._is_explicit = True\n", 'R-C10-widthtable'),
+    _m('assign-loop-checks-first-target-only', TC2, "    for i, target in enumerate( node.targets ):\n      s._visit_Assign_single_target( node, target, i )", "    for i, target in enumerate( node.targets ):\n      s._visit_Assign_single_target( node, node.targets[0], i )", 'R-C10-mismatch'),
+    _m('assign-loop-skips-last-target', TC2, "    for i, target in enumerate( node.targets ):\n      s._visit_Assign_single_target( node, target, i )", "    for i, target in enumerate( node.targets[:1] ):\n      s._visit_Assign_single_target( node, target, i )", 'R-C10-mismatch'),
+    _m('sim-ge-int-branch-operand-width', BITS, "      return _new_valid_bits( 1, self._uint >= other )", "      return _new_valid_bits( nbits, self._uint >= other )", 'R-C10-widthtable'),
+    _m('sim-add-int-branch-one-bit', BITS, "      return _new_valid_bits( nbits, (self._uint + other) & up )", "      return _new_valid_bits( 1, (self._uint + other) & up )", 'R-C10-widthtable', count='first'),
+    _m('const-subscript-truthiness-py39', GEN[0], "    idx = s.visit( node.slice )\n    if value is not None and idx is not None:", "    idx = s.visit( node.slice )\n    if value and idx:", 'R-C10-constfold'),
+    _m('const-subscript-idx-truthiness-py38', GEN[0], "      if value is not None and idx is not None:", "      if value is not None and idx:", 'R-C10-constfold'),
+    _m('const-subscript-or-instead-of-and', GEN[0], "    idx = s.visit( node.slice )\n    if value is not None and idx is not None:", "    idx = s.visit( node.slice )\n    if value is not None or idx is not None:", 'R-C10-constfold'),
+    _m('struct-identity-by-class-name', TC3, "        if lhs_type.get_name() != rhs_type.get_name():", "        if lhs_type.get_class().__name__ != rhs_type.get_class().__name__:", 'R-C10-mismatch'),
+    _m('struct-eq-by-class-name', RDT, "    return isinstance(u, Struct) and s.get_full_name() == u.get_full_name()", "    return isinstance(u, Struct) and s.cls.__name__ == u.cls.__name__", 'R-C10'),
     # literal width
     _m('float-log-reintroduced-L1', TC1, "      return value.bit_length()\n", "      return math.ceil(math.log2(value+1))\n", 'R-intlog'),
     _m('float-log-reintroduced-rdt', RDT, "    return value.bit_length()\n", "    return ceil(log2(value+1))\n", 'R-C10-litwidth'),
@@ -2257,6 +2386,10 @@ MUTANTS = [
 ]
 
 EQUIV = [
+    _m('assign-loop-by-index', TC2, "    for i, target in enumerate( node.targets ):\n      s._visit_Assign_single_target( node, target, i )", "    for i in range( len( node.targets ) ):\n      s._visit_Assign_single_target( node, node.targets[i], i )"),
+    _m('const-subscript-guard-as-not-none-in', GEN[0], "    idx = s.visit( node.slice )\n    if value is not None and idx is not None:", "    idx = s.visit( node.slice )\n    if not (value is None or idx is None):"),
+    _m('struct-identity-by-full-name', TC3, "        if lhs_type.get_name() != rhs_type.get_name():", "        if lhs_type.get_full_name() != rhs_type.get_full_name():"),
+    _m('constant-list-element-explicit-by-type-test', TC1, "          node._is_explicit = not isinstance( obj[ int( idx ) ], int )\n", "          node._is_explicit = type( obj[ int( idx ) ] ) != int\n"),
     _m('closure-created-with-dict-call', GEN[0], "    s.closure = {}\n\n    for i, var in enumerate( blk.__code__.co_freevars ):", "    s.closure = dict()\n\n    for i, var in enumerate( blk.__code__.co_freevars ):"),
     _m('component-interface-explicit-pair-compare', RT, "all(_u == _v for _u, _v in zip(u, v))", "all(_u[0] == _v[0] and _u[1] == _v[1] for _u, _v in zip(u, v))"),
     _m('wire-next-dim-helper-variable', RT, "    return Wire( s.dtype.get_next_dim_type(), s.unpacked )", "    sub = s.dtype.get_next_dim_type()\n    return Wire( sub, s.unpacked )"),
